@@ -58,7 +58,9 @@ type world struct {
 
 func writeFile(p, tag string) {
 	must(os.MkdirAll(filepath.Dir(p), 0o755))
-	must(os.WriteFile(p, []byte("content of "+tag+"\n"), 0o644))
+	// long enough for every offer of a history to reference its own region; the
+	// unique tag is at the end so that every region of every file is distinct
+	must(os.WriteFile(p, []byte(strings.Repeat(".", 80)+"content of "+tag+"\n"), 0o644))
 }
 
 func errText(err error, S string) string {
@@ -151,7 +153,7 @@ func (w *world) offer(st *store, api, raw string, copies int, t *tally) bool {
 		target = filepath.Join(w.R, raw)
 	}
 	content, rerr := os.ReadFile(target)
-	readable := rerr == nil && len(content) > 8
+	readable := rerr == nil && len(content) > 64
 	disp := strings.Replace(raw, w.S, "S", 1)
 
 	var nodes []*posinfo.FilestoreNode
@@ -161,7 +163,7 @@ func (w *world) offer(st *store, api, raw string, copies int, t *tally) bool {
 		off := 0
 		var data []byte
 		if readable {
-			off = st.offers % 8 // distinct region => distinct CID for every offer of the same file
+			off = st.offers % 64 // distinct region => distinct CID for every offer of the same file (a history has < 64 offers)
 			data = content[off:]
 		} else {
 			data = []byte(fmt.Sprintf("no such file: %s (offer %d)", raw, st.offers))
